@@ -2114,6 +2114,11 @@ func rewriteCases(g *G) []kcs {
 			out = append(out, kcs{k, cat(base, []string{a, mid, b})})
 			out = append(out, kcs{k, cat(base, []string{b, mid, a})})
 			out = append(out, kcs{k, cat(base, []string{mid, a})})
+			if st.typ == "up" {
+				// the exported UserProperties slice changed in place by the program
+				out = append(out, kcs{k, cat(base, []string{a, mid, "~UPSet:0:6b:" + short})})
+				out = append(out, kcs{k, cat(base, []string{b, a, mid, "~UPSet:1:6b6b:" + long, mids[g.pick(len(mids))], "~UPSet:0:6b:" + short})})
+			}
 		}
 	}
 	return out
@@ -2475,6 +2480,19 @@ func oracleC10(r *report, g *G, n int, single string) {
 	for _, bc := range propBoundaryCases(g) {
 		check(bc.k, bc.cs)
 	}
+	// written or printed, then changed (also in place: an element of UserProperties, a filter
+	// through Filters()): the later frame is the frame of the same calls without the earlier look
+	g.domain = true
+	for _, rc := range rewriteCases(g) {
+		check(rc.k, rc.cs)
+		func() {
+			defer func() { recover() }()
+			if a, b := frameOf(build(rc.k, rc.cs)), frameOf(build(rc.k, stripRO(rc.cs))); !bytesEq(a, b) {
+				r.fail("write-after-readonly", "W "+strconv.Itoa(rc.k)+" A"+sp(rc.cs), "a packet that was printed or written before it was changed writes "+trunc(hexs(a))+", the same calls without that "+trunc(hexs(b)))
+			}
+		}()
+	}
+	g.domain = false
 	// frames above 64 KiB: still one Write, and the count of a writer that gives up anywhere
 	for _, sz := range []int{65535, 65536, 65537, 70000, 200000} {
 		check(3, []string{"SetTopicName:742f62", "SetPayload:" + hexs(g.bytesN(sz))})
@@ -2523,6 +2541,16 @@ func oracleC11(r *report, g *G, n int, single string) {
 		p := build(k, cs)
 		snap0 := snapshot(p)
 		first := frameOf(p)
+		// what a read-only call handed out stays what it was: the text String() returned
+		// (kept as it was returned, and as a copy) is compared again after everything else
+		text0 := p.String()
+		textCopy := strings.Clone(text0)
+		defer func() {
+			_ = build(k, cs).String()
+			if text0 != textCopy {
+				r.fail("readonly-result-changes", c, fmt.Sprintf("the string String() returned reads %q later, it was %q", trunc(text0), trunc(textCopy)))
+			}
+		}()
 		for i := 0; i < 32; i++ {
 			readOnlyOps(p, g)
 			if f := frameOf(p); !bytesEq(f, first) {
@@ -2562,6 +2590,27 @@ func oracleC11(r *report, g *G, n int, single string) {
 		k, _ := strconv.Atoi(f[1])
 		check(k, f[2:])
 	}
+	// a read-only call in the middle of a history changes nothing that comes later: the frame
+	// is the frame of the same calls without it
+	g.domain = true
+	for _, rc := range rewriteCases(g) {
+		func() {
+			c := "W " + strconv.Itoa(rc.k) + " A" + sp(rc.cs)
+			defer func() {
+				if e := recover(); e != nil {
+					r.fail("determinism-panic", c, fmt.Sprint(e))
+				}
+			}()
+			pa, pb := build(rc.k, rc.cs), build(rc.k, stripRO(rc.cs))
+			if a, b := frameOf(pa), frameOf(pb); !bytesEq(a, b) {
+				r.fail("readonly-op-mutates", c, "with the read-only calls the packet writes "+trunc(hexs(a))+", without them "+trunc(hexs(b)))
+			} else if sa, sb := pa.String(), pb.String(); sa != sb {
+				r.fail("readonly-op-mutates", c, fmt.Sprintf("with the read-only calls String() is %q, without them %q", trunc(sa), trunc(sb)))
+			}
+			r.eval("rewrite", true, c)
+		}()
+	}
+	g.domain = false
 	for i := 0; i < n; i++ {
 		k := g.kind()
 		g.big = false
@@ -2750,6 +2799,12 @@ func (s *specPkt) apply(tok string) {
 	switch name {
 	case "~String", "~Dump", "~WriteTo", "~FailWrite", "~PartWrite", "~WellFormed", "~Acc", "~Reuse":
 		return // read-only operations, and what the caller does with its own slices, change nothing
+	case "~UPSet":
+		parts := strings.Split(arg, ":")
+		if i, _ := strconv.Atoi(parts[0]); i < len(s.ups) {
+			s.ups[i] = "L[S" + parts[1] + ",S" + parts[2] + "]"
+		}
+		return
 	case "~FilterSet":
 		parts := strings.Split(arg, ":")
 		if i, _ := strconv.Atoi(parts[0]); i < len(s.filters) {
@@ -4361,6 +4416,15 @@ func oracleC13(r *report, g *G, n int, single string) {
 					}
 				}()
 				lg := newG(seed)
+				var kept []string // what String() returned earlier stays what it was
+				defer func() {
+					for _, s := range kept {
+						if s != wantS {
+							r.fail("concurrent-string", c, fmt.Sprintf("a string String() returned earlier reads %q now, it was %q", trunc(s), trunc(wantS)))
+							break
+						}
+					}
+				}()
 				for j := 0; j < 20; j++ {
 					switch lg.pick(7) {
 					case 0:
@@ -4372,9 +4436,11 @@ func oracleC13(r *report, g *G, n int, single string) {
 							r.fail("concurrent-bytes", "W "+strconv.Itoa(k)+" A"+sp(cs2), "a WriteTo concurrent with writes of another packet wrote "+trunc(hexs(f))+" sequential "+trunc(hexs(want2)))
 						}
 					case 2:
-						if s := p.String(); s != wantS {
+						s := p.String()
+						if s != wantS {
 							r.fail("concurrent-string", c, s)
 						}
+						kept = append(kept, s)
 					case 3:
 						var b strings.Builder
 						mq.Dump(&b, p)
